@@ -168,7 +168,7 @@ class World:
         return AEv(abs_, eid | q, self.ctid(t), words, data, name_or_id if isinstance(name_or_id, str) else None)
 
     def sys(self, name, q, t, words=None):
-        cls = AUDIT[name]['cls']
+        cls = AUDIT[name]['cls'] if name in AUDIT else 'SYS0'     # decoders newer than the audit: context-free
         if words is None:
             words = self.words(name, 'end' if q == 2 else ('start' if q == 1 else 'single'))
         return self._mk(name, cls, q, t, {'x': 0}, words=words)
